@@ -9,6 +9,8 @@ import ChibiVerif.Lemmas.LinkageData
 namespace ChibiVerif.Linkage
 open ChibiVerif.Spec.Linkage
 
+variable [Rules]
+
 /-! ### names -/
 
 theorem mem_fnNames_cons {d : Decl} {ds : List Decl} {g : Name} :
@@ -472,44 +474,33 @@ theorem body_unique {D : List FnDecl} (h1 : (D.filter (fun d => d.body.isSome)).
 
 /-! ### `is_definition` after `parse` -/
 
-def foldDS (ds : List Decl) (g : Name) (cur : Option (Bool × Bool)) : Option (Bool × Bool) :=
-  ds.foldl (fun c d => stepDS d g c) cur
-
-theorem projDS_evolve : ∀ (ds : List Decl) (g : Name) (cur : Option FV),
-    (evolve ds g cur).map projDS = foldDS ds g (cur.map projDS)
+theorem flagsAfter_def : ∀ (ds : List Decl) (g : Name) (cur : Option Flags),
+    (flagsAfter ds g cur).map (·.isDefinition) =
+      if fnDecls ds g = [] then cur.map (·.isDefinition)
+      else some ((cur.map (·.isDefinition)).getD false || fnDefined (fnDecls ds g))
   | [], _, _ => rfl
   | d :: ds, g, cur => by
-    simp only [evolve, foldDS, List.foldl_cons]
-    have := projDS_evolve ds g (stepFV d g cur)
-    simp only [evolve, foldDS] at this
-    rw [this, projDS_stepFV]
-
-theorem foldDS_def : ∀ (ds : List Decl) (g : Name) (cur : Option (Bool × Bool)),
-    (foldDS ds g cur).map (·.1) =
-      if fnDecls ds g = [] then cur.map (·.1) else some ((cur.map (·.1)).getD false || fnDefined (fnDecls ds g))
-  | [], _, _ => rfl
-  | d :: ds, g, cur => by
-    simp only [foldDS, List.foldl_cons]
-    have ih := foldDS_def ds g (stepDS d g cur)
-    simp only [foldDS] at ih
+    simp only [flagsAfter, List.foldl_cons]
+    have ih := flagsAfter_def ds g (stepFlags d g cur)
+    simp only [flagsAfter] at ih
     rw [ih]
     cases d with
     | func f n s e i body =>
       rw [fnDecls_cons_func]
       by_cases hf : f = g
       · subst hf
-        simp only [if_true, stepDS]
+        simp only [if_true, stepFlags]
         by_cases h0 : fnDecls ds f = []
         · simp only [h0, if_true]
           cases cur with
-          | none => simp [fnDefined]
-          | some p => simp [fnDefined]
+          | none => simp [fnDefined, newFlags]
+          | some q => simp [fnDefined, redeclF_isDefinition]
         · simp only [h0, if_false]
           cases cur with
-          | none => simp [fnDefined]
-          | some p => simp [fnDefined, Bool.or_assoc]
+          | none => simp [fnDefined, newFlags]
+          | some q => simp [fnDefined, redeclF_isDefinition, Bool.or_assoc]
       · have hg : ¬ g = f := fun e' => hf e'.symm
-        simp [stepDS, hf, hg]
+        simp [stepFlags, hf, hg]
     | obj x s e t ty init =>
       rw [fnDecls_cons_obj]
       rfl
@@ -518,9 +509,9 @@ theorem foldDS_def : ∀ (ds : List Decl) (g : Name) (cur : Option (Bool × Bool
 theorem isDefinition_parse {ds : List Decl} {st : PState} (h : declAll {} ds = .ok st) {f : Name} {o : Obj}
     (ho : findFunc st.globals f = some o) : o.isDefinition = fnDefined (fnDecls ds f) := by
   have hT := T_parse h f
-  have h1 : (T st.globals f).map projDS = some (o.isDefinition, o.isStatic) := by simp [T, ho, projDS, fview]
-  rw [hT, projDS_evolve] at h1
-  have h2 := foldDS_def ds f (Option.map projDS none)
+  have h1 : (T st.globals f).map flagsOf = some (flagsOf (fview o)) := by simp [T, ho]
+  rw [hT, flagsOf_evolve] at h1
+  have h2 := flagsAfter_def ds f (Option.map flagsOf none)
   rw [h1] at h2
   by_cases h0 : fnDecls ds f = []
   · simp [h0] at h2
